@@ -120,4 +120,14 @@ PROPS = {
         "trusted": ["Model F (coq/Mux/Dispatch.v) re-states handler.go's four handle* loops, listen, and server.go handleChannel's deferred finish"],
         "assumptions": ["cross-kind select order is not modelled; sequences are paced or single-kind"],
     },
+    "C17": {
+        "title": "Concurrent sessions are isolated and handlers see their own session",
+        "design_ref": "DESIGN.md section 5, C17; section 4 Models F and G (Mux/Sessions.v)",
+        "technique": "Coq proof over all numbers of sessions, interleavings, id sources, Register callbacks and handler behaviours (per-session view theorem, non-interference, frame lemma, distinct ids) + differential correspondence: many real clients over mixed transports on one real Server",
+        "level_text": "PARTIAL. Machine-checked proof (Coq 8.16.1, no axioms) about the product model - one server, any number of sessions, each with the id drawn for it, the server's node and the node the Register callback assigned, arbitrary interleavings of connects, arrivals and session ends, arbitrary handlers: every handler invocation for an envelope that arrived on session j is given session j's id, local and remote node; what is written through the Sender handed to the handler goes to session j's connection and only there; a session's view is a function of its own operations only (non-interference, frame lemma); ids are pairwise distinct given that the id source does not repeat (hypothesis on uuid, visible in the statement). Isolation holds in the model almost by construction (the mux keeps no per-session state); that the code has no hidden shared state is what the correspondence checks on every run: 2-8 (thorough: up to 32) real clients over in-process, TCP and WebSocket transports on one real Server whose Register callback permutes the addresses (sometimes giving two clients the same node), every handler recording ContextSessionID/LocalNode/RemoteNode and replying through its Sender with those values echoed, every client recording what it receives; the per-client views are compared inside Coq with the model's joint run and with the per-client specification, and the announced ids must be pairwise distinct.",
+        "level_note": "Partial: the theorem is about explicit interleavings of whole dispatches; the Go scheduler, data races and the transports' framing are outside the model. Trusted: Coq kernel; Model F/G product (coq/Mux/Sessions.v); the harness (interning of strings into numbers, per-client programs) and printers.",
+        "trusted": ["Model F/G product (coq/Mux/Sessions.v) re-states server.go consumeTransports/handleChannel (fresh id and channel per transport), context.go sessionContext and handler.go listen (context and Sender taken from the channel of arrival)"],
+        "assumptions": ["uuid.NewString never repeats (hypothesis of C17_ids_distinct)", "clients are connected one after the other so that the i-th client is the i-th session"],
+        "timeout": {"quick": 600, "thorough": 3000},
+    },
 }
